@@ -36,8 +36,10 @@ class Prop(PropBase):
 
     def cases(self, rng, tier):
         quick = tier == "quick"
-        for _ in range(120 if quick else 4000):
+        for i_case in range(120 if quick else 4000):
             n, L, extra = rng.choice([1, 2, 3]), rng.choice([2, 3, 6]), rng.choice([0, 0, 2])
+            if i_case % 60 == 59:
+                n, L, extra = rng.choice([32, 65]), rng.choice([64, 129]), 0        # many channels, longer records
             cnt = L * n * 2 * (extra or 1)
             def comp():
                 r = rng.random()
